@@ -19,7 +19,7 @@ ASSUMPTIONS = [
     "rescaling uses powers of two (exact in floating point); tolerances 1e-9 relative",
     "weighted MAD is judged convention-free: result/1.4826 must satisfy the half-weight conditions on |a - weighted median|",
 ]
-BUDGET_S = {"quick": 200, "thorough": 1500}
+BUDGET_S = {"quick": 600, "thorough": 2400}
 
 
 def setup(run):
